@@ -91,13 +91,13 @@ Section Sides.
 
   Definition sum_ds (l : list side_cfg) : Z := fold_right Z.add 0 (map dslen l).
 
-  Lemma side_pass_eq ci sc : wf_side sc ->
-    side_pass c ci (offset_of c ci) sc = side_events c ci sc.
+  Lemma side_pass_eq ci sc p : wf_side sc ->
+    side_pass c ci (offset_of c ci) sc p = side_events c ci sc p.
   Proof.
-    intros [_ [_ [_ [Hb [Hl _]]]]]. unfold side_pass, side_events.
+    intros [_ [_ [_ [Hb [Hl _]]]]]. unfold side_pass, side_events. rewrite (lB_eq c mi W).
     assert (0 < or_default (sbs sc) (cB c)) as Hibs.
     { unfold or_default. destruct (sbs sc) eqn:E; [now apply Hb|]. pose proof (wf_B c mi W). lia. }
-    apply side_pass_chunks; auto; lia.
+    apply side_pass_chunks; auto. specialize (Hl p). lia.
   Qed.
 
   Lemma should_iter_due sc (k : counters) : wf_side sc -> k_prev_sample k < k_sample k ->
@@ -114,56 +114,88 @@ Section Sides.
   Lemma sum_ds_snoc pre sc : sum_ds (pre ++ [sc]) = sum_ds pre + dslen sc.
   Proof. unfold sum_ds. induction pre; simpl; lia. Qed.
 
+  (* the sampler objects' iteration counts after an update: one more for every due config *)
+  Fixpoint bump (l : list side_cfg) (pn : list nat) (k : counters) : list nat :=
+    match l, pn with
+    | sc :: l', p :: pn' => (if due sc k then S p else p) :: bump l' pn' k
+    | _, _ => []
+    end.
+
   Lemma sides_pass_eq (k : counters) : k_prev_sample k < k_sample k ->
-    forall l pre, sides c = pre ++ l ->
-    sides_pass c (length pre) (offsets_from (dsN c + sum_ds pre) l) l
+    forall l pre pn, sides c = pre ++ l ->
+    sides_pass c (length pre) (offsets_from (dsN c + sum_ds pre) l) l pn
                (k_epoch_end k) (k_epoch k) (k_update k) (k_sample k) (k_prev_sample k)
-    = passes_from c (length pre) l k.
+    = (passes_from c (length pre) l pn k, bump l pn k).
   Proof.
-    intros Hlt. induction l as [|sc l IH]; intros pre Hs; [reflexivity|].
+    intros Hlt. induction l as [|sc l IH]; intros pre pn Hs; [reflexivity|].
     assert (wf_side sc) as Hw.
     { pose proof (wf_sides c mi W) as HF. rewrite Hs in HF. apply Forall_app in HF.
       destruct HF as [_ HF]. now inversion HF. }
-    cbn [offsets_from sides_pass passes_from].
+    destruct pn as [|p pn]; [reflexivity|].
+    cbn [offsets_from sides_pass passes_from bump].
     rewrite should_iter_due by auto.
-    rewrite <- (offset_of_app pre (sc :: l)) by auto. rewrite side_pass_eq by auto.
-    f_equal.
-    specialize (IH (pre ++ [sc])). rewrite app_length in IH. simpl length in IH.
+    specialize (IH (pre ++ [sc]) pn). rewrite app_length in IH. simpl length in IH.
     replace (length pre + 1)%nat with (S (length pre)) in IH by lia.
-    rewrite sum_ds_snoc in IH. rewrite (offset_of_app pre (sc :: l)) by auto.
+    rewrite sum_ds_snoc in IH.
     replace (dsN c + sum_ds pre + dslen sc) with (dsN c + (sum_ds pre + dslen sc)) by lia.
-    apply IH. rewrite <- app_assoc. exact Hs.
+    rewrite IH by (rewrite <- app_assoc; exact Hs).
+    rewrite <- (offset_of_app pre (sc :: l)) by auto. rewrite side_pass_eq by auto.
+    reflexivity.
   Qed.
 
-  Lemma sides_pass_spec (k : counters) : k_prev_sample k < k_sample k ->
-    sides_pass c 0 (offsets c) (sides c)
+  Lemma sides_pass_spec (k : counters) pn : k_prev_sample k < k_sample k ->
+    sides_pass c 0 (offsets c) (sides c) pn
                (k_epoch_end k) (k_epoch k) (k_update k) (k_sample k) (k_prev_sample k)
-    = passes_from c 0 (sides c) k.
+    = (passes_from c 0 (sides c) pn k, bump (sides c) pn k).
   Proof.
-    intros Hlt. pose proof (sides_pass_eq k Hlt (sides c) [] eq_refl) as H.
+    intros Hlt. pose proof (sides_pass_eq k Hlt (sides c) [] pn eq_refl) as H.
     unfold sum_ds in H. simpl in H. rewrite Z.add_0_r in H. exact H.
   Qed.
 
   (* zero budget: the eval loop is one pass over every config *)
-  Lemma eval_loop_eq : forall l pre, sides c = pre ++ l ->
-    eval_loop c (length pre) (offsets_from (dsN c + sum_ds pre) l) l = spec_eval c (length pre) l.
+  Lemma eval_loop_eq : forall l pre pn, sides c = pre ++ l ->
+    eval_loop c (length pre) (offsets_from (dsN c + sum_ds pre) l) l pn = spec_eval c (length pre) l pn.
   Proof.
-    induction l as [|sc l IH]; intros pre Hs; [reflexivity|].
+    induction l as [|sc l IH]; intros pre pn Hs; [reflexivity|].
     assert (wf_side sc) as Hw.
     { pose proof (wf_sides c mi W) as HF. rewrite Hs in HF. apply Forall_app in HF.
       destruct HF as [_ HF]. now inversion HF. }
+    destruct pn as [|p pn]; [reflexivity|].
     cbn [offsets_from eval_loop spec_eval].
     rewrite <- (offset_of_app pre (sc :: l)) by auto. rewrite side_pass_eq by auto. f_equal.
-    specialize (IH (pre ++ [sc])). rewrite app_length in IH. simpl length in IH.
+    specialize (IH (pre ++ [sc]) pn). rewrite app_length in IH. simpl length in IH.
     replace (length pre + 1)%nat with (S (length pre)) in IH by lia.
     rewrite sum_ds_snoc in IH. rewrite (offset_of_app pre (sc :: l)) by auto.
     replace (dsN c + sum_ds pre + dslen sc) with (dsN c + (sum_ds pre + dslen sc)) by lia.
     apply IH. rewrite <- app_assoc. exact Hs.
   Qed.
 
-  Lemma eval_loop_spec : eval_loop c 0 (offsets c) (sides c) = spec_eval c 0 (sides c).
+  Lemma eval_loop_spec pn : eval_loop c 0 (offsets c) (sides c) pn = spec_eval c 0 (sides c) pn.
   Proof.
-    pose proof (eval_loop_eq (sides c) [] eq_refl) as H.
+    pose proof (eval_loop_eq (sides c) [] pn eq_refl) as H.
     unfold sum_ds in H. simpl in H. rewrite Z.add_0_r in H. exact H.
   Qed.
 End Sides.
+
+(* index_offsets as built by the constructor (one entry for the main data source,
+   one more per config but the last) is what the loops index with config_idx *)
+Lemma index_offsets_from_eq : forall l acc, l <> [] ->
+  acc :: index_offsets_from acc (removelast l) = offsets_from acc l.
+Proof.
+  induction l as [|sc l IH]; intros acc Hne; [congruence|].
+  destruct l as [|sc' r]; [reflexivity|].
+  change (removelast (sc :: sc' :: r)) with (sc :: removelast (sc' :: r)).
+  cbn [index_offsets_from offsets_from]. f_equal. apply IH. discriminate.
+Qed.
+Lemma index_offsets_eq c : sides c <> [] -> index_offsets c = offsets c.
+Proof. intros H. unfold index_offsets, offsets. now apply index_offsets_from_eq. Qed.
+
+(* the k-th entry is the main data source's length plus the lengths of the data
+   sources of the configs before k *)
+Lemma offsets_nth c ci : (ci < length (sides c))%nat -> nth ci (offsets c) 0 = offset_of c ci.
+Proof.
+  unfold offsets, offset_of. generalize (dsN c) as acc. generalize (sides c) as l. revert ci.
+  induction ci as [|ci IH]; intros l acc Hl; (destruct l as [|sc l]; [simpl in Hl; lia|]).
+  - cbn. lia.
+  - cbn [offsets_from nth firstn map fold_right]. simpl in Hl. rewrite IH by lia. lia.
+Qed.
